@@ -3,11 +3,13 @@
 // Enumerated: n <= 3 (4 thorough) triples (key, message, signature) with key in {k0,k1} and message in
 // {m0,m1} (so keys and messages repeat), every batch size 1..n, and three complete families of
 // transformations of the signature vector starting from the all-valid vector:
-//   offset : s_i + e_i*delta for every e in {-1,0,+1}^n (delta a fixed G1 element; contains every
-//            cancelling pattern such as s1+delta, s2-delta and every non-cancelling one)
-//   perm   : s_pi(i) for every permutation pi (signatures swapped between entries)
-//   replace: per entry one of {valid, signed by the other key, signed over the other message,
-//            first bit of the encoding flipped}, all 4^n combinations
+//
+//	offset : s_i + e_i*delta for every e in {-1,0,+1}^n (delta a fixed G1 element; contains every
+//	         cancelling pattern such as s1+delta, s2-delta and every non-cancelling one)
+//	perm   : s_pi(i) for every permutation pi (signatures swapped between entries)
+//	replace: per entry one of {valid, signed by the other key, signed over the other message,
+//	         first bit of the encoding flipped}, all 4^n combinations
+//
 // Oracle (statement): aggregate Verify accepts  <=>  every individual real Verify(key_i, s_i, m_i) accepts.
 // The same oracle is applied through the two call sites of the statement: chain.VerifyTickets and
 // miner ValidateTransactions (c32_sites.go).
@@ -267,9 +269,9 @@ func c32() {
 	// violations are collected and reported in enumeration order (smallest case first), so that
 	// the replay written for a key is the minimal case and the run is deterministic
 	type vio struct {
-		order         int
-		key, what     string
-		replay        map[string]any
+		order     int
+		key, what string
+		replay    map[string]any
 	}
 	var mu sync.Mutex
 	var vios []vio
